@@ -210,7 +210,44 @@ pub fn generate(run_seed: u64) -> Scenario {
     p.links |= wl.chance(1, 2);
     p.comments |= wl.chance(1, 2);
     p.huge_nums = wl.chance(1, 5);
-    let doc = if wl.chance(1, 4) {
+    let doc = if wl.chance(1, 12) {
+        // breadth: a table with hundreds of columns, or hundreds of items,
+        // links or paragraphs (paths which only wide documents take)
+        let mut d = String::new();
+        match wl.below(4) {
+            0 | 1 => {
+                let cols = wl.pick(&[127usize, 128, 129, 200, 300]);
+                let rows = wl.urange(1, 5);
+                d.push_str("<table>");
+                for r in 0..rows {
+                    d.push_str("<tr>");
+                    for c in 0..cols {
+                        if c % 37 == 5 && r == 1 {
+                            d.push_str("<td colspan=3>w</td>");
+                        } else {
+                            d.push_str(wl.pick(&["<td>a</td>", "<td>bc</td>", "<td></td>", "<td>\u{5bbd}</td>", "<th>h</th>"]));
+                        }
+                    }
+                    d.push_str("</tr>");
+                }
+                d.push_str("</table><p>after</p>");
+            }
+            2 => {
+                let n = wl.pick(&[100usize, 300, 1000]);
+                d.push_str(wl.pick(&["<ul>", "<ol>", "<ol start=995>"]));
+                for i in 0..n {
+                    d.push_str(&format!("<li>item {} <a href='u{}'>l</a></li>", i, i % 7));
+                }
+            }
+            _ => {
+                let n = wl.pick(&[100usize, 300, 1000]);
+                for i in 0..n {
+                    d.push_str(&format!("<p id=p{}>para <b>{}</b> <a href=\"h\">x</a></p>", i, i));
+                }
+            }
+        }
+        d.into_bytes()
+    } else if wl.chance(1, 4) {
         gen_doc_from_seeds(&mut wl, target, &p.mix, false)
     } else {
         gen_doc(&mut wl, p)
@@ -434,11 +471,26 @@ pub fn generate(run_seed: u64) -> Scenario {
                 preempt_sites.push((site, nth));
             }
         }
+        // ... and, mostly, at sites which a calibration rendering of this
+        // document actually reaches (resolved at execution time)
+        let mut preempt_hit: Vec<(u32, u32)> = Vec::new();
+        if class == 2 {
+            let n = match er.weighted(&[20, 30, 30, 20]) {
+                0 => 0,
+                1 => er.urange(1, 3),
+                2 => er.urange(4, 10),
+                _ => er.urange(11, 24),
+            };
+            for _ in 0..n {
+                preempt_hit.push((er.below(64) as u32, er.below(1000) as u32));
+            }
+        }
         threads.push(ThreadSpec {
             stack_kib: 8192,
             ops,
             preempt_ticks,
             preempt_sites,
+            preempt_hit,
         });
     }
     // Every tree handed to a thread is picked up there (bounded polite
